@@ -250,6 +250,9 @@ def r6b_opened_table_flags(rep, facts):
         if isinstance(out, str):
             (rep.incomplete if out.startswith('unanalysable') else rep.bad)(R, f'{fn}|{case}', f'`{fn}` with {case}: {out}', loc)
             continue
+        accepts = case in ('nothing there', 'a header-implied table there') or (fn == 'start_array_table' and case == 'an array of tables there')
+        if not accepts or (fn == 'start_array_table' and case == 'a header-implied table there'):
+            continue            # what must be refused is C09/R2's matter
         if out is None:
             rep.bad(R, f'{fn}|{case}', f'`{fn}` refuses a header with {case} under its name (TOML permits a super-table after its sub-table)', loc)
             continue
@@ -283,22 +286,21 @@ def r2_occupied_is_error(rep, facts):
                 okv = True
         rep.check(R, d.replace(P, '') + '|value=>extend_wrong_type', okv, 'a non-table on the path => Err(extend_wrong_type)',
                   f'`{d.replace(P, "")}` no longer rejects a path that runs into a scalar / array / inline table', facts.loc(b))
-    # start_table: `_ => Err(duplicate_key)`
-    b = facts.body(ST + 'start_table')
-    arms = [a for m in walk(b['body']) if m.get('k') == 'match' and m.get('src') == 'Normal' for a in m['arms']]
-    wild = [a for a in arms if is_catch_all(a['pat'])]
-    rep.check(R, 'state::ParseState::start_table|_=>Err', len(wild) == 1 and arm_returns_err(wild[0]['body']), '_ => return Err(duplicate_key)',
-              'start_table no longer rejects a header that names an existing non-implicit entry', facts.loc(b))
-    # start_array_table / finalize_table: as_array_of_tables(_mut)().ok_or_else(duplicate)?
-    for d, meth in ((ST + 'start_array_table', 'as_array_of_tables'), (ST + 'finalize_table', 'as_array_of_tables_mut')):
-        b = facts.body(d)
-        ok = False
-        for n in walk(b['body']):
-            if n.get('k') == 'mcall' and n.get('name') in ('ok_or_else', 'ok_or') and peel(n['recv']).get('k') == 'mcall' and peel(n['recv']).get('name') == meth:
-                r = peel(peel(n['recv'])['recv'])
-                ok = r.get('k') == 'path' and r.get('res') == 'Local' and any(last_seg(c) == 'duplicate_key' for x in calls_in(n['args'][0]) for c in callee_all(x))
-        rep.check(R, d.replace(P, '') + f'|{meth}.ok_or_else(dup)', ok, f'entry.{meth}().ok_or_else(duplicate_key)?',
-                  f'`{d.replace(P, "")}` no longer rejects `[[x]]` when `x` is not an array of tables', facts.loc(b))
+    # the header starters refuse a name that is taken by something a header may not reopen (evaluated on a model parser state)
+    from .shared import header_start_model
+    must_refuse = {'start_table': ('an explicit table there', 'an array of tables there', 'a value there'),
+                   'start_array_table': ('a header-implied table there', 'an explicit table there', 'a value there')}
+    for fn, case, out in header_start_model(facts):
+        if case not in must_refuse.get(fn, ()):
+            continue
+        d = ST + fn
+        loc = facts.loc(facts.body(d)) if facts.has_body(d) else ''
+        if isinstance(out, str):
+            (rep.incomplete if out.startswith('unanalysable') else rep.bad)(R, f'{fn}|{case}=>Err', f'`{fn}` with {case}: {out}', loc)
+            continue
+        rep.check(R, f'state::ParseState::{fn}|{case}=>Err', out is None, 'refused', f'`{fn}` accepts a header whose name is taken by {case[:-6]}: the existing definition is reopened, replaced or '
+                  f'turned into another kind without an error', loc)
+    # finalize_table: as_array_of_tables_mut().ok_or_else(duplicate)?  (the attachment itself is evaluated by C09/R8)
     b = facts.body(ST + 'finalize_table')
     # the catch-all arm of the match over the occupied entry's item (the one that has an `Item::Table(..)` arm)
     wild = [a for m in walk(b['body']) if m.get('k') == 'match' and any(pat_mentions(x['pat'], 'Item::Table') for x in m['arms'])
